@@ -399,6 +399,8 @@ class List(list, base.Symbolic, pg_typing.CustomTyping):
     """Set or add an item without permission check."""
     assert isinstance(key, numbers.Integral), key
     index = key
+    if -len(self) <= index < 0:
+      index += len(self)
     if index >= len(self):
       # Appending MISSING_VALUE is considered no-op.
       if value == pg_typing.MISSING_VALUE:
@@ -464,8 +466,16 @@ class List(list, base.Symbolic, pg_typing.CustomTyping):
 
   def _on_change(self, field_updates: Dict[utils.KeyPath, base.FieldUpdate]):
     """On change event of List."""
-    # Do nothing for now to handle changes of List.
+    self._sync_children()
+    if self._onchange_callback is not None:
+      self._onchange_callback(field_updates)
 
+  def _sync_children(self) -> None:
+    """Removes deletion placeholders and re-indexes the children.
+
+    This is structural bookkeeping: it runs after every structural mutation,
+    whether or not change notification is enabled.
+    """
     # NOTE(daiyip): Remove items that are MISSING_VALUES.
     keys_to_remove = []
     for i, item in self.sym_items():
@@ -479,9 +489,6 @@ class List(list, base.Symbolic, pg_typing.CustomTyping):
     for idx, item in self.sym_items():
       if isinstance(item, base.TopologyAware) and item.sym_path.key != idx:
         item.sym_setpath(utils.KeyPath(idx, self.sym_path))
-
-    if self._onchange_callback is not None:
-      self._onchange_callback(field_updates)
 
   def _parse_slice(self, index: slice) -> Tuple[int, int, int]:
     start = index.start if index.start is not None else 0
@@ -614,6 +621,8 @@ class List(list, base.Symbolic, pg_typing.CustomTyping):
               self._value_spec.element if self._value_spec else None,
               old_value, pg_typing.MISSING_VALUE)
       ])
+    else:
+      self._sync_children()
 
   def __add__(self, other: Iterable[Any]) -> 'List':
     """Returns a concatenated List of self and other."""
@@ -679,6 +688,8 @@ class List(list, base.Symbolic, pg_typing.CustomTyping):
         index, mark_as_insertion(value))
     if flags.is_change_notification_enabled() and update:
       self._notify_field_updates([update])
+    else:
+      self._sync_children()
 
   def pop(self, index: int = -1) -> Any:
     """Pop an item and return its value."""
